@@ -64,6 +64,13 @@ fn spec(cfg: Config, depth: usize, devs: usize) -> SeqSpec {
                         a.push((if stateless { Op::SRead { side: s, nonce, msg: Msg::Wire(peer, k), cap: Cap::Roomy } } else { Op::TRead { side: s, msg: Msg::Wire(peer, k), cap: Cap::Roomy } }, !(can_read && in_seq)));
                     }
                     a.push((if stateless { Op::SRead { side: s, nonce: 0, msg: Msg::Garbage(32, 9), cap: Cap::Roomy } } else { Op::TRead { side: s, msg: Msg::Garbage(32, 9), cap: Cap::Roomy } }, true));
+                    // one-way patterns: no rekey call - not even one that installs a key for the direction that does
+                    // not exist - may lift the rule (once per path: the ops change the key terms)
+                    if oneway && !e.steps.iter().any(|st| matches!(st.op, Op::RekeyManual { .. } | Op::RekeyRespManual { .. } | Op::RekeyOut { .. } | Op::RekeyIn { .. }) && st.op.side() == s) {
+                        a.push((Op::RekeyRespManual { side: s, k: 2 }, true));
+                        a.push((Op::RekeyManual { side: s, i: Some(1), r: Some(2) }, true));
+                        a.push((if s.is_init() { Op::RekeyIn { side: s } } else { Op::RekeyOut { side: s } }, true));
+                    }
                 },
                 APhase::Gone => {},
             }
